@@ -99,7 +99,9 @@ def oracle(run):
         if "s" in fl:
             continue
         want = s1eval.logical(init, under=p, skip_dirs_top=("r" in fl))
-        got = s1eval.logical(final["snap"], under=p, skip_dirs_top=("r" in fl))
+        # the artifact was absent before the checkout in every variant: a non-recursive artifact comes back as
+        # its top-level files and nothing else
+        got = s1eval.logical(final["snap"], under=p)
         if want != got:
             v.append(("tree-differs", "artifact %s not reproduced: %s" % (p.decode(), diff_views(want, got))))
     return v
